@@ -135,6 +135,19 @@ def make_methods(log: Log, is_async: bool) -> Dict[str, Callable[..., Any]]:
 
     fac = dict(fac1=factory(1), fac2=factory(2))
 
+    def slow(v, ticks=0):
+        log.calls.append(('slow', (v, ticks), {}))
+        return ['slow', v]
+
+    async def a_slow(v, ticks=0):
+        # really suspends: `ticks` trips through the event loop before finishing
+        log.calls.append(('slow', (v, ticks), {}))
+        for _ in range(ticks if isinstance(ticks, int) and not isinstance(ticks, bool) and 0 <= ticks <= 8 else 0):
+            await asyncio.sleep(0)
+        return ['slow', v]
+
+    fac['slow'] = a_slow if is_async else slow
+
     if not is_async:
         return dict(fac, ok=ok, noargs=noargs, echo=echo, kwonly=kwonly, rpcerr=rpcerr, typed=typed, boom=boom, ctxm=ctxm)
 
@@ -182,7 +195,7 @@ def make_view(log: Log, is_async: bool):
     return ProbeView
 
 
-METHOD_NAMES = ('fac1', 'fac2', 'ok', 'noargs', 'echo', 'kwonly', 'rpcerr', 'typed', 'boom', 'ctxm', 'view.vm')
+METHOD_NAMES = ('slow', 'fac1', 'fac2', 'ok', 'noargs', 'echo', 'kwonly', 'rpcerr', 'typed', 'boom', 'ctxm', 'view.vm')
 
 
 class World:
